@@ -142,9 +142,10 @@ def check_program(ctx, prog, layout, offsets, scratch, roles=QUERY_ROLES):
             # one merged (only-list, rename-map) record per module: when the module that holds the entity is also reached
             # by a path that does not carry the rename, the later path's map entry replaces the right one
             label = "def:rename-list-of-a-re-exported-entity:not-resolved"
-        if o.role == "member" and o.tok_i >= 2 and o.stmt.toks[o.tok_i - 1] == "%" and (id(o.stmt), o.tok_i - 2) in fail_by_tok:
+        base_i = fmodel.chain_prev(o.stmt.toks, o.tok_i) if o.role == "member" else None
+        if base_i is not None and (id(o.stmt), base_i) in fail_by_tok:
             # the base of this % chain was already bound wrongly: same root cause, same signature
-            label = fail_by_tok[(id(o.stmt), o.tok_i - 2)]
+            label = fail_by_tok[(id(o.stmt), base_i)]
         fail_by_tok[(id(o.stmt), o.tok_i)] = label
         if o.role == "remote":
             # one root cause: the name after '=>' in a USE rename clause is looked up as an ordinary name
